@@ -3,11 +3,13 @@
   Each module answers the requests it knows (`none` = not mine).
 -/
 import RosuModel.Model.Cmds.Frame
+import RosuModel.Model.Cmds.Reader
 namespace Rosu
 
 def dispatch (toks : List String) : String :=
   ((none : Option String)
     |>.orElse (fun _ => dispatchFrame toks)
+    |>.orElse (fun _ => dispatchReader toks)
     ).getD "bad-request"
 
 end Rosu
